@@ -50,6 +50,11 @@ def tasks(tier):
                    {"default": None, "per": {"T": "ctx", "U": "legacy"}})
         for e in ENTRIES:
             out.append({"family": "outcome", "cfg": cfg, "entry": e, "bound": bound, "weight": M})
+    # with a breaker attached at the Policy layer
+    for M, e in itertools.product([2, 3], ["Policy.execute", "AsyncPolicy.execute", "PolicySet.execute"]):
+        cfg = dict(M=M, alphabet=ALPHA, abort=True, handler="call", max_unknown=1, strat_menu=[1, 0],
+                   breaker={"threshold": 3, "window": 8, "recovery": 2, "trip_on": ["T", "U", "P"]})
+        out.append({"family": "outcome-breaker", "cfg": cfg, "entry": e, "bound": 2})
     # cancellation-type / nested endings and callback faults
     for M in (2, 3):
         cfg = dict(M=M, alphabet=ALPHA_X, abort=True, max_unknown=None,
@@ -76,10 +81,19 @@ def tasks(tier):
         out.append({"family": "outcome-classified-once", "cfg": cfg, "entry": e, "bound": 1})
     # attempt_timeout_s configured (sync, owned executor) and the operation itself raises
     # TimeoutError well within the timeout: it is that attempt's own exception
-    for M, e in itertools.product([1, 2, 3], ["Retry.execute", "Policy.execute", "RetryPolicy.execute"]):
-        cfg = dict(M=M, alphabet=["ok", "x:T", "timeout", "r:T"], attempt_timeout=4, durs=[0, 1],
-                   max_unknown=None, handler="call")
+    for M, e in itertools.product([1, 2, 3], ["Retry.execute", "Policy.execute", "RetryPolicy.execute"] + ["AsyncRetry.execute", "AsyncPolicy.execute", "AsyncRetryPolicy.execute"]):
+        cfg = dict(M=M, alphabet=["ok", "x:T", "timeout", "r:T"], attempt_timeout=2, durs=[0, 1, 10],
+                   max_unknown=None, handler="call" if "deco" not in e else None,
+                   sleeper="call" if "deco" not in e else "policy",
+                   loop=e.startswith("Async") or e == "adeco",
+                   sleeper_async=e.startswith("Async") or e == "adeco")
         out.append({"family": "outcome-attempt-timeout", "cfg": cfg, "entry": e, "bound": 1})
+    # the operation returns None and the result classifier rejects None
+    for M, e in itertools.product([2, 3], ["Retry.execute", "Policy.execute", "RetryPolicy.execute", "AsyncRetry.execute",
+                                           "AsyncPolicy.execute"]):
+        cfg = dict(M=M, alphabet=["ok", "rn:T", "x:T", "rn:P"], force_rc=True, max_unknown=None,
+                   handler="call")
+        out.append({"family": "outcome-none-result", "cfg": cfg, "entry": e, "bound": 1})
     return out
 
 
